@@ -131,6 +131,64 @@ class _TmpReturn(ast.NodeTransformer):
         return node
 
 
+class _InsertLog(ast.NodeTransformer):
+    """A logging call after every simple statement of a function body (the commonest harmless edit)."""
+
+    def _pad(self, body):
+        out = []
+        for st in body:
+            out.append(st)
+            if isinstance(st, (ast.Assign, ast.AugAssign, ast.AnnAssign)) or (isinstance(st, ast.Expr) and isinstance(st.value, ast.Call)):
+                out.append(ast.Expr(ast.Call(func=ast.Attribute(value=ast.Call(func=ast.Attribute(value=ast.Name(id="logging", ctx=ast.Load()), attr="getLogger", ctx=ast.Load()),
+                                                                              args=[ast.Constant("gtirb_rewriting.trace")], keywords=[]), attr="debug", ctx=ast.Load()),
+                                             args=[ast.Constant("step")], keywords=[])))
+        return out
+
+    def visit_FunctionDef(self, node):
+        self.generic_visit(node)
+        # not in generators' first statement position issues: plain padding of all statement lists inside functions
+        for sub in ast.walk(node):
+            for field in ("body", "orelse", "finalbody"):
+                b = getattr(sub, field, None)
+                if isinstance(b, list) and b and isinstance(b[0], ast.stmt) and not isinstance(sub, ast.ClassDef):
+                    if not getattr(sub, "_logged_" + field, False):
+                        setattr(sub, field, self._pad(b))
+                        setattr(sub, "_logged_" + field, True)
+        return node
+
+
+class _InvertIf(ast.NodeTransformer):
+    """if a: X else: Y   ->   if not a: Y else: X   (only when there is an else branch that is not an elif)."""
+
+    def visit_If(self, node):
+        self.generic_visit(node)
+        if node.orelse and not (len(node.orelse) == 1 and isinstance(node.orelse[0], ast.If)):
+            return ast.If(test=ast.UnaryOp(op=ast.Not(), operand=node.test), body=node.orelse, orelse=node.body)
+        return node
+
+
+class _ElseDedent(ast.NodeTransformer):
+    """if a: ...return/raise/continue/break   else: Y   ->   if a: ...;  Y   (else after a terminating branch)."""
+
+    def _fix(self, body):
+        out = []
+        for st in body:
+            if isinstance(st, ast.If) and st.orelse and st.body and isinstance(st.body[-1], (ast.Return, ast.Raise, ast.Continue, ast.Break)):
+                out.append(ast.If(test=st.test, body=st.body, orelse=[]))
+                out.extend(st.orelse)
+            else:
+                out.append(st)
+        return out
+
+    def generic_visit(self, node):
+        super().generic_visit(node)
+        for field in ("body", "orelse", "finalbody"):
+            b = getattr(node, field, None)
+            if isinstance(b, list) and b and isinstance(b[0], ast.stmt):
+                setattr(node, field, self._fix(b))
+        return node
+
+
 def make_neutral(root: Path, kind: str) -> None:
     src_dir = root / "src" / core.PKG
     for p in sorted(src_dir.rglob("*.py")):
@@ -157,8 +215,10 @@ def make_neutral(root: Path, kind: str) -> None:
                         rename_in(st)
             rename_in(tree)
             new = ast.unparse(tree)
-        elif kind in ("swap-eq", "nest-and", "tmp-return"):
-            tree = {"swap-eq": _SwapEq, "nest-and": _NestAnd, "tmp-return": _TmpReturn}[kind]().visit(tree)
+        elif kind in ("swap-eq", "nest-and", "tmp-return", "insert-log", "invert-if", "else-dedent"):
+            tree = {"swap-eq": _SwapEq, "nest-and": _NestAnd, "tmp-return": _TmpReturn, "insert-log": _InsertLog, "invert-if": _InvertIf, "else-dedent": _ElseDedent}[kind]().visit(tree)
+            if kind == "insert-log" and not any(isinstance(n, ast.Import) and any(a.name == "logging" for a in n.names) for n in tree.body):
+                tree.body.insert(1 if tree.body and isinstance(tree.body[0], ast.Expr) else 0, ast.Import(names=[ast.alias(name="logging")]))
             ast.fix_missing_locations(tree)
             new = ast.unparse(tree)
         else:
@@ -167,7 +227,7 @@ def make_neutral(root: Path, kind: str) -> None:
         p.write_text("# neutral variant: " + kind + "\n\n\n" + new + "\n")
 
 
-NEUTRAL_KINDS = ("unparse", "insert-pass", "rename-locals", "swap-eq", "nest-and", "tmp-return")
+NEUTRAL_KINDS = ("unparse", "insert-pass", "rename-locals", "swap-eq", "nest-and", "tmp-return", "invert-if", "else-dedent", "insert-log")
 
 
 # ----------------------------------------------------------------------------
